@@ -34,6 +34,12 @@ where
         buf.reserve(to - from);
         if S::IS_NATIVE_LAYOUT {
             let reader = self.base.region().create_reader();
+            #[cfg(anydb_verif)]
+            rawdb::verif::range_access(
+                self.base.region(),
+                HEADER_OFFSET + from * size_of::<T>(),
+                (to - from) * size_of::<T>(),
+            );
             let src = unsafe {
                 std::slice::from_raw_parts(
                     reader
